@@ -49,6 +49,10 @@ package objectsets
 //@   at teardownPhase#1 assert [C04] idx < old(len(phasesOf(objectSet)))
 //@   at teardownPhase#1 assert [C04] arg2.Name == old(slice_of("package-operator.run/apis/core/v1alpha1.ObjectSetTemplatePhase", phasesOf(objectSet))[len(phasesOf(objectSet)) - 1 - idx].Name)
 //@   ensures [C04] cleanupDone && err == nil ==> old(finalizers(clientObj(objectSet))["orphan"]) || !tdPending()
+// done is reported only after the teardown of every phase was asked for (and, by the clause above, confirmed)
+//@   at teardownPhase#1 ghost tdCalls() := tdCalls() + 1
+//@   loop 1 invariant [C04] tdCalls() == old(tdCalls()) + idx && idx <= old(len(phasesOf(objectSet)))
+//@   ensures [C04] cleanupDone && err == nil ==> old(finalizers(clientObj(objectSet))["orphan"]) || tdCalls() == old(tdCalls()) + old(len(phasesOf(objectSet)))
 
 //@ props C04,C06,C14
 //@ func package-operator.run/internal/controllers/objectsets.(*GenericObjectSetController).handleDeletionAndArchival
@@ -88,8 +92,9 @@ package objectsets
 //@ props C03,C06
 //@ func package-operator.run/internal/controllers/objectsets.(*objectSetPhasesReconciler).Reconcile
 //@   requires [C03] !failedSoFar()
-//@   at SetStatusCondition#3 assert [C06] !failedSoFar()
-//@   at SetStatusCondition#4 assert [C06] !failedSoFar() && !inTransition
+// (stated for every condition write of the function and of helpers split off it, whatever their order)
+//@   at SetStatusCondition assert [C06] arg1.Type == "Available" && arg1.Status == "True" ==> !failedSoFar()
+//@   at SetStatusCondition assert [C06] arg1.Type == "Succeeded" ==> !failedSoFar() && !inTransition
 
 // an ObjectSet that is not archived, lists objects in its spec and was seen to control nothing is in transition
 // (InTransition is cleared only if every object in spec was seen under the ObjectSet's control; this is the instance
@@ -121,3 +126,15 @@ package objectsets
 //@   loop 2 invariant 0 <= idx && idx <= len(phase.Slices)
 //@   loop 2 invariant forall i int, j int :: 0 <= i && i < idx1 && 0 <= j && j < len(phases[i].Slices) ==> sliceFetched(phases[i].Slices[j])
 //@   loop 2 invariant forall j int :: 0 <= j && j < idx ==> sliceFetched(phase.Slices[j])
+
+//@ props C08
+// The ObjectSet confirms the pause (Paused=True is what the ObjectDeployment waits for before archiving) only when
+// every delegated phase was read and reported Paused in this pass.
+//@ func package-operator.run/internal/controllers/objectsets.(*GenericObjectSetController).areRemotePhasesPaused
+//@   after IsStatusConditionTrue#1 ghost sawUnpaused() := sawUnpaused() || !result
+//@   loop 1 invariant 0 <= idx && (old(sawUnpaused()) ==> sawUnpaused())
+//@   loop 1 invariant idx <= old(len(remotePhasesOf(objectSet))) && remotePhasesOf(objectSet) == old(remotePhasesOf(objectSet))
+//@   loop 1 invariant? loopint <= idx && (sawUnpaused() && !old(sawUnpaused()) ==> loopint < idx)
+//@   loop 1 invariant? loopbool ==> !sawUnpaused() || old(sawUnpaused())
+//@   ensures [C08] arePaused && err == nil && !old(sawUnpaused()) ==> !sawUnpaused()
+//@   ensures [C08] arePaused ==> !unknown && err == nil
